@@ -100,3 +100,35 @@ fn c05_ratchet_request_beyond_window_refused() {
     forget(r);
     kani::cover!(true);
 }
+
+/// The window edge with CONCRETE generations: a request exactly 1025 ahead is refused up front. With
+/// concrete generations the catch-up loop is unreachable on correct code (cheap); should the window
+/// check ever let 1025 through, the loop is unrolled (unwind 1030) and the assertion below fails with a
+/// replayable counterexample instead of an unwinding-assertion failure.
+fn window_edge_refused<const GEN: u32>() {
+    let uf = Uf::fresh();
+    let secret = any_bytes::<NH>();
+    let mut r = ratchet_new(vec_of(secret), GEN);
+    match ratchet_get_message_key(&mut r, &uf, GEN + 1025) {
+        Ok(k) => { forget(k); assert!(false, "a generation 1025 ahead (beyond the documented window of 1024) was accepted"); }
+        Err(e) => {
+            assert!(matches!(e, MlsError::InvalidFutureGeneration(_)));
+            assert!(ratchet_generation(&r) == GEN && rk::eq(&secret, ratchet_secret(&r)));
+            forget(e);
+        }
+    }
+    forget(r);
+    kani::cover!(true);
+}
+
+macro_rules! edge {
+    ($($name:ident: $g:expr);*) => {$(
+        #[kani::proof]
+        #[kani::unwind(1030)]
+        #[kani::stub(mls_rs::group::key_schedule::kdf_expand_with_label, mls_rs::verif::derive::kdf_expand_with_label_cut)]
+        #[kani::stub(zeroize::optimization_barrier, crate::stubs::optimization_barrier_stub)]
+        #[kani::stub(zeroize::volatile_set, crate::stubs::volatile_set_stub)]
+        fn $name() { window_edge_refused::<$g>(); }
+    )*};
+}
+edge!(c05_window_edge_refused_g0: 0; c05_window_edge_refused_g7: 7);
